@@ -110,6 +110,68 @@ def constant_child_instances(model, tier: str):
     return out
 
 
+def inspected_child_instances(model, tier: str):
+    """Every unary/binary class with a child drawn from the classes that its own methods inspect
+    (isinstance / *_of_given_type anywhere in the class, discovered from the source), with the
+    parameter combinations, and n-ary nodes of arity 2 -- the shapes on which a special case keyed
+    on the class of a child can act.  Also the same *object* used as both operands."""
+    from .simpengine import mentioned_classes, child_shapes, Namer
+    names = [c.name for c in model.concrete_expression_classes() if c.name in spec.ALL_CLASSES]
+    out = []
+    ns = (2, 3) if tier == "quick" else (1, 2, 3, 4, 6)
+    for k in names:
+        if k in spec.LEAF:
+            continue
+        nm = Namer()
+        for ck in mentioned_classes(model, k):
+            if ck in spec.LEAF:
+                continue
+            for ch in child_shapes(ck, nm, "quick", True):
+                if k in spec.UNARY:
+                    out.append(((k, ch), f"{k}<{ck}>"))
+                elif k in ("NthPower", "NthRoot"):
+                    for n in ns + ((ch[2],) if ck in ("NthPower", "NthRoot") and ch[2] not in ns else ()):
+                        if ck in ("NthPower", "NthRoot"):
+                            par = lambda v: "even" if int(v) % 2 == 0 else "odd"
+                            out.append(((k, ch, n), f"{k}[{par(n)}]({ck}[{par(ch[2])}])"))
+                        else:
+                            out.append(((k, ch, n), f"{k}<{ck}>"))
+                elif k == "Exponential":
+                    for b in (2, E):
+                        out.append(((k, ch, b), f"{k}<{ck}>"))
+                elif k == "Logarithm":
+                    for b in (2, E):
+                        out.append(((k, ch, b), f"{k}<{ck}>"))
+                elif k in spec.BINARY:
+                    out.append(((k, ch, nm.var()), f"{k}<{ck},_>"))
+                    out.append(((k, nm.var(), ch), f"{k}<_,{ck}>"))
+                elif k in spec.NARY:
+                    out.append(((k, [ch, nm.var()]), f"{k}<{ck},_>"))
+    # the same object in two argument positions
+    for kind, _nh in PARTIAL_CHILD:
+        pc = partial_child(kind, ["p", "q"])
+        for k in names:
+            if k in spec.BINARY:
+                out.append(((k, pc, pc), f"{k}<same {kind}>"))
+            elif k in spec.NARY:
+                out.append(((k, [pc, pc]), f"{k}<same {kind}>"))
+    return out
+
+
+def wide_nary_instances(model, tier: str):
+    """n-ary nodes of arity 4 and 5 over variables (and with one zero constant)"""
+    names = [c.name for c in model.concrete_expression_classes()]
+    vs = [("Variable", n) for n in ("a", "b", "c", "d", "e")]
+    out = []
+    for k in names:
+        if k in spec.NARY:
+            for ar in (4, 5):
+                out.append(((k, vs[:ar]), f"{k}(arity {ar})"))
+            out.append(((k, vs[:3] + [("Constant", 0)]), f"{k}(arity 4 with 0)"))
+            out.append(((k, [("Constant", 0)] + vs[:4]), f"{k}(arity 5 with 0)"))
+    return out
+
+
 PARTIAL_CHILD = [("Reciprocal", 1), ("Logarithm", 1), ("NthRoot", 1), ("Divide", 2), ("Power", 2)]
 
 
@@ -193,6 +255,11 @@ def eval_case(args):
              "forks": [f"{d}={b}" for d, b in o["forks"]]}
         if o["kind"] in ("unsupported", "limit"):
             r.update(status="unsupported", reason=o["msg"])
+        elif o["kind"] == "raise" and exc_name(o["exc"]) == "OverflowError":
+            r.update(status="skip", reason="an exact intermediate leaves the double range (excluded by the property)")
+        elif o["kind"] == "return" and isinstance(o["value"], SymNum) and o["value"].conc is not None \
+                and isinstance(o["value"].conc, float) and (math.isinf(o["value"].conc) or math.isnan(o["value"].conc)):
+            r.update(status="skip", reason="overflow to inf/nan (excluded by the property)")
         elif o["kind"] == "raise":
             nm = exc_name(o["exc"])
             r.update(got="raise", exc=nm, origin=exc_origin(o["exc"]))
